@@ -61,14 +61,20 @@ def conn_events(log, upstream='u1', mode='tunnel'):
                 recvd[k] += e['data']
                 out.append({'e': 'recv', 's': k, 'res': 'data', 'n': e['n']})
             else:
-                out.append({'e': 'recv', 's': k, 'res': e['res'], 'n': 0})
+                res = e['res']
+                if res == 'err' and str(e.get('err', '')).startswith('SSLWant'):
+                    res = 'again'
+                out.append({'e': 'recv', 's': k, 'res': res, 'n': 0})
         elif ev == 'send':
             if e['res'] == 'ok':
                 ok = bytes(queued[k][sent[k]:sent[k] + e['n']]) == e['data']
                 sent[k] += e['n']
                 out.append({'e': 'send', 's': k, 'res': 'ok', 'n': e['n'], 'ok': ok})
             else:
-                out.append({'e': 'send', 's': k, 'res': e['res'], 'n': 0, 'ok': True})
+                res = e['res']
+                if res == 'err' and str(e.get('err', '')).startswith('SSLWant'):
+                    res = 'again'           # TLS would-block: the socket is fine, the call must be retried later
+                out.append({'e': 'send', 's': k, 'res': res, 'n': 0, 'ok': True})
         elif ev == 'queue':
             data = e['data']
             o = 'u' if k == 'c' else 'c'
